@@ -360,9 +360,143 @@ def _job(idx):
     return part.dump()
 
 
+# ------------------------------------------------------------------------------
+# a wait call next to the notification thread (engine B): the subscriber thread
+# applies the awaited state and runs the application's state callback; the
+# callback takes its time - in the limit it waits for the thread which sits in
+# the wait call.  The wait call returns (shortly after the state is reached)
+# without waiting for the callback: with the callback blocked for good, every
+# schedule must still let the wait call return.
+#
+def _cb_job(args):
+    from rpmc import clientrace, sched as rs
+    kind, api, final = args
+    part = report.Part()
+    mods = (task_mod, pilot_mod, tmgr_mod, pmgr_mod)
+    from radical.pilot import constants as rpc
+    from radical.pilot.task_manager  import TaskManager
+    from radical.pilot.pilot_manager import PilotManager
+    from radical.pilot.task  import Task
+    from radical.pilot.pilot import Pilot
+
+    class W(object):
+        pass
+
+    def make_world(s):
+        net.install()
+        w = W()
+        w.net = net.Net().activate()
+        w.returned = False
+        w.cb_seen  = list()
+        if kind == 'task':
+            w.mgr = cw.make_tmgr()
+            w.ent = w.mgr.submit_tasks([rp.TaskDescription(
+                        {'executable': '/bin/true', 'uid': 't0'})])[0]
+            clientrace.control_locks(s, w.mgr, ['_tasks_lock', '_tcb_lock',
+                                                '_pilots_lock'])
+        else:
+            w.mgr = cw.make_pmgr()
+            w.ent = cw.make_pilot(w.mgr, 'p0')
+            clientrace.control_locks(s, w.mgr, ['_pilots_lock', '_pcb_lock'])
+        clientrace.control_locks(s, w.ent, ['_cb_lock'])
+
+        def app_cb(ent, state, *a):
+            # an application callback which does not come back before the
+            # waiting thread has got its answer
+            w.cb_seen.append(state)
+            if state == target:
+                s.block_until(lambda: w.returned)
+        w.mgr.register_callback(app_cb)
+        class PollClock(object):
+            # the wait loops poll with time.sleep(0.1): a poll point of the
+            # controlled scheduler (idle until something changed)
+            def time(self_): return s.now
+            def sleep(self_, dt): s.poll_point()
+        w.clock = PollClock()
+        for m in mods:
+            m.time = w.clock
+        return w
+
+    target = (rps.DONE if final else
+              rps.AGENT_EXECUTING if kind == 'task' else rps.PMGR_ACTIVE)
+
+    def bodies(w):
+        d = {'uid': w.ent.uid, 'type': kind, 'state': target}
+        if final:
+            d['target_state'] = target
+
+        def notify():
+            w.mgr._state_sub_cb(rpc.STATE_PUBSUB, seams.wire(
+                                {'cmd': 'update', 'arg': [d]}))
+
+        def wait():
+            if api == 'entity':
+                w.value = w.ent.wait(state=None if final else target)
+            elif kind == 'task':
+                w.value = w.mgr.wait_tasks(uids=[w.ent.uid],
+                                           state=None if final else target)
+            else:
+                w.value = w.mgr.wait_pilots(uids=[w.ent.uid],
+                                            state=None if final else target)
+            w.returned = True
+            s_ = rs_sched[0]
+            s_.bump(force=True)
+        return [('notify', notify), ('wait', wait, True)]
+
+    rs_sched = [None]
+    real_make = make_world
+
+    def make_world2(s):
+        rs_sched[0] = s
+        return real_make(s)
+
+    replay = {'part': 'callback', 'case': list(args)}
+
+    def judge(w, s, res):
+        if res != 'done' or not w.returned:
+            stuck = list(s.stuck)
+            part.violation(
+                'wait-blocked-by-callback|%s|%s:%s'
+                % ('TaskManager._update_tasks' if kind == 'task'
+                   else 'PilotManager._update_pilot',
+                   api, 'final' if final else 'non-final'),
+                {'what': '%s %s(%s) does not return while the application\'s '
+                         'state callback for %s is still running (%s; threads '
+                         '%s): the call needs a lock which the notification '
+                         'thread holds while it invokes callbacks'
+                         % (kind, 'wait' if api == 'entity' else
+                            'wait_%ss' % kind, target, target, res, stuck)},
+                dict(replay, schedule=list(s.choices)))
+        part.outcome(('cb', kind, api, final, res, w.returned))
+
+    old = [m.time for m in mods]
+    try:
+        n, capped = clientrace.explore(
+            make_world2, bodies,
+            [TaskManager._update_tasks, TaskManager._task_cb,
+             PilotManager._update_pilot, PilotManager._call_pilot_callbacks,
+             Task._update, Pilot._update, TaskManager.wait_tasks,
+             PilotManager.wait_pilots, Task.wait, Pilot.wait], 1, judge)
+    finally:
+        for m, t in zip(mods, old):
+            m.time = t
+    part.cover(executions=n, callback_cases=1,
+               traces_validated_against_impl=n)
+    return part.dump()
+
+
+def run_callbacks(ctx):
+    jobs = [(kind, api, final) for kind in ('task', 'pilot')
+                               for api in ('entity', 'manager')
+                               for final in (False, True)]
+    for res in seams.pmap(_cb_job, jobs, ctx.workers):
+        ctx.merge(res)
+
+
 def run(ctx):
     global _scns
     ctx.level = 'model_checking'
+    run_callbacks(ctx)
     _scns = scenarios(ctx.quick)
     import random
     order = list(range(len(_scns)))
